@@ -10,15 +10,26 @@ LEVEL = "exploration"
 BUDGET = {"quick": 3000, "thorough": 900000}
 RULE = ("case = format string generated from the grammar (literal | %% | spec)*, spec = % flags* width? (.prec)? length? conv "
         "with conv in d i u o x X c s f F e E g G a A p $ (only flag/length combinations the C standard defines), specs at "
-        "the very start/end and adjacent, literals over bytes 1..255 except '%', 0-8 arguments (Int full range, Float incl. "
-        "+-inf/+-0/denormals, Strings incl. bytes >= 0x80 and '%'), a generated start position inside an existing prefix, sink = heap "
-        "String or File; optionally one argument too few. Oracle: per conversion the text libc's snprintf produces for the C "
+        "the very start/end and adjacent, literals over bytes 1..255 except '%' (also runs of 100-1100 bytes around buffer "
+        "sizes), 1-8 pieces (sometimes up to 24), arguments: Int full range, Float incl. +-inf/+-0/denormals, Strings incl. "
+        "bytes >= 0x80 and '%' and lengths around buffer sizes, for %s also a Type object (its C_Str text), for %p heap / "
+        "stack / static objects and NULL; a generated start position inside an existing prefix; sink = heap String, File, or "
+        "the process' stdout through print / println / show (captured by redirecting the descriptor); optionally one, two or "
+        "all arguments too few, optionally surplus arguments (ignored, as String's own show relies on). %$ arguments: Int, "
+        "Float, String, Type, NULL, Ref, Box (full or emptied), Range, Slice, Array / List of Int | String | Float, Table / "
+        "Tree with Int or String keys and values, Tuple of mixed values incl. nested Tuples / Arrays / Tables, Slice with "
+        "0-3 arguments (start / stop / step, negative and '_' forms) over Array, List, Tuple, Range, Table, Tree<Int|String> "
+        "or another Slice (expected items = what the Slice yields through the iteration API); containers "
+        "have 0-4 (sometimes up to 30) elements and optionally a history (elements pushed and popped again, keys set and "
+        "removed again, the last elements added after construction, capacity reserved with resize) so that capacity and "
+        "length differ. Oracle: per conversion the text libc's snprintf produces for the C "
         "value the specification designates (computed in the executor by a separate reference op), literals verbatim, %$ = "
-        "show text (Int %li, Float %f, String quoted+escaped, containers: header + each element's show text once, in "
-        "iteration order); result = prefix[:pos] + text, returned position = pos + len(text); too few arguments => "
-        "FormatError. non-trivial = >= 2 specs with at least one flag/width/precision, or a spec at either end of the "
-        "format, or pos > 0. distinct = distinct case JSON.")
+        "show text (Int %li, Float %f, String quoted+escaped, NULL <NULL>, containers: header + each element's show text "
+        "once, in iteration order); result = prefix[:pos] + text, returned position = pos + len(text) (println: + newline); "
+        "too few arguments => FormatError. non-trivial = >= 2 specs with at least one flag/width/precision, or a spec at "
+        "either end of the format, or pos > 0. distinct = distinct case JSON.")
 ASSUMPTIONS = ["this libc's printf is the reference (same process); '*' width/precision, %n, L, %lc/%ls are outside the API's expressible domain",
+               "surplus arguments are ignored (String_Show and Tuple_Show themselves pass one)", "show of NULL is <NULL> (show_to handles it explicitly)",
                "flag/length combinations that are undefined behaviour in C are not generated", "ASan watches format buffer and destination"]
 
 INT_CONV = "diuoxX"
@@ -41,9 +52,123 @@ def _flags(allowed):
     return st.lists(st.sampled_from(allowed), max_size=3, unique=True).map(lambda l: "".join(l)) if allowed else st.just("")
 
 
+BOUNDARY = [100, 126, 127, 128, 129, 254, 255, 256, 257, 511, 512, 513, 1023, 1024, 1025, 1100]
+_ADDR = b"[0-9a-zA-Z()x]+"
+
+
+def _elem(et):
+    if et == "Int":
+        return st.integers(-50, 50).map(lambda v: "i:%d" % v)
+    if et == "Float":
+        return st.one_of(st.sampled_from([0.0, -0.0, 0.5, -2.5, 1e22, 16777217.0, 1e-7, float("inf")]),
+                         st.floats(-1000, 1000, allow_nan=False)).map(lambda x: "f:%016x" % gen.f2b(x))
+    return gen.cbytes(4).map(lambda b: "s:" + b.hex())
+
+
+def _nelems(draw):
+    return draw(st.sampled_from([0, 1, 2, 3, 4, 2, 3, 4, 9, 17, 30]))
+
+
+@st.composite
+def _seq_val(draw, kind=None):
+    kind = kind or draw(st.sampled_from(["Array", "List"]))
+    et = draw(st.sampled_from(["Int", "String", "Float"]))
+    n = _nelems(draw)
+    items = draw(st.lists(_elem(et), min_size=0, max_size=n))
+    # history: k elements pushed at the end and popped again; one element pushed at the front and popped again
+    # ... the last `late` items pushed after construction (capacity grows in steps), capacity reserved by resize (Array)
+    hist = {"push": draw(st.sampled_from([0, 0, 1, 3, 20])), "front": draw(st.booleans()),
+            "late": draw(st.sampled_from([0, 0, 1, 2, 5])), "reserve": draw(st.sampled_from([0, 0, 0, 1, 7, 40]))}
+    return [kind, et, items, hist]
+
+
+@st.composite
+def _map_val(draw, kind=None):
+    kind = kind or draw(st.sampled_from(["Table", "Tree"]))
+    kv = draw(st.sampled_from(["Int", "Int", "SI", "IS", "SS"]))          # key / value types: Int,Int | String,Int | Int,String | String,String
+    n = _nelems(draw)
+    if kv in ("SI", "SS"):
+        keys = ["s:" + k.hex() for k in draw(st.lists(gen.cbytes(3), max_size=n, unique=True))]
+    else:
+        keys = ["i:%d" % k for k in draw(st.lists(st.integers(-20, 20), max_size=n, unique=True))]
+    if kv == "Int":
+        vals = ["i:%d" % draw(st.integers(0, 9)) for _ in keys]
+    else:
+        vals = [draw(_elem("String" if kv in ("IS", "SS") else "Int")) for _ in keys]
+    # keys set and removed again before the show; the last `late` pairs set after construction; slots reserved by resize (Table)
+    hist = {"extra": draw(st.sampled_from([0, 0, 1, 4, 16])), "late": draw(st.sampled_from([0, 0, 1, 2, 5])),
+            "reserve": draw(st.sampled_from([0, 0, 0, 1, 7, 40]))}
+    return [kind, kv, [[k, v] for k, v in zip(keys, vals)], hist]
+
+
+_slice_arg = st.one_of(st.just("_"), st.integers(-15, 15), st.integers(-3, 3))
+
+
+@st.composite
+def _slice_val(draw, depth=0):
+    """a Slice (0-3 arguments: stop | start, stop | start, stop, step; '_' = default; negative = from the end / backwards)
+    over an Array, List, Tuple, Range, Table, Tree or another Slice (the same argument domain as C11's walks)"""
+    bk = draw(st.sampled_from(["Array", "List", "Tuple", "Range", "Table", "Tree", "Tree", "TreeS"] + (["Slice"] if depth == 0 else [])))
+    n = draw(st.integers(0, 8))
+    if bk in ("Array", "List", "Tuple"):
+        base = [bk, "Int", ["i:%d" % v for v in draw(st.lists(st.integers(-50, 50), max_size=n))]]
+    elif bk == "Range":
+        base = ["Range", n]
+    elif bk == "Slice":
+        base = draw(_slice_val(1))
+    elif bk == "TreeS":
+        ks = draw(st.lists(gen.cbytes(3), max_size=n, unique=True))
+        base = ["Tree", "SI", [["s:" + k.hex(), "i:%d" % i] for i, k in enumerate(ks)]]
+    else:
+        # keys far from 0..n-1: a key is not a position
+        ks = draw(st.lists(st.one_of(st.integers(-20, 20), st.integers(100, 120)), max_size=n, unique=True))
+        base = [bk, "Int", [["i:%d" % k, "i:%d" % draw(st.integers(0, 9))] for k in ks]]
+    na = draw(st.sampled_from([0, 0, 1, 2, 3, 3, 3]))
+    args = [draw(_slice_arg) for _ in range(na)]
+    if na == 3:
+        args[2] = draw(st.sampled_from([1, -1, 2, -2, 3, -3, "_"]))
+    return ["SliceX", base, args]
+
+
+@st.composite
+def _mix_val(draw, depth=0):
+    """a Tuple of mixed values, possibly holding other containers"""
+    n = draw(st.integers(0, 4 if depth else 6))
+    items = []
+    for _ in range(n):
+        k = draw(st.sampled_from(["Int", "Int", "String", "String", "Float", "Type", "Mix", "Array", "Table"] if depth < 2 else ["Int", "String", "Float"]))
+        if k == "Int":
+            items.append(["Int", "i:%d" % draw(gen.ints())])
+        elif k == "String":
+            items.append(["String", "s:" + draw(gen.cbytes(6)).hex()])
+        elif k == "Float":
+            items.append(["Float", draw(_elem("Float"))])
+        elif k == "Type":
+            items.append(["Type", draw(st.sampled_from(["Int", "Tuple", "Blob"]))])
+        elif k == "Mix":
+            items.append(draw(_mix_val(depth + 1)))
+        elif k == "Array":
+            items.append(draw(_seq_val()))
+        else:
+            items.append(draw(_map_val()))
+    return ["Mix", items]
+
+
+def _slots(val):
+    """VM slots the value needs"""
+    k = val[0]
+    if k == "Mix":
+        return 1 + sum(_slots(v) for v in val[1])
+    if k == "Tuple":
+        return 1 + len(val[2])
+    if k == "SliceX":
+        return 1 + _slots(val[1])
+    return 2
+
+
 @st.composite
 def _spec(draw):
-    conv = draw(st.sampled_from(list("ddiuoxXcsssfFeEgGaAp$$")))
+    conv = draw(st.sampled_from(list("ddiuoxXcsssfFeEgGaAp$$$")))
     width = draw(st.one_of(st.none(), st.none(), st.integers(0, 40), st.integers(0, 40),
                            st.sampled_from([63, 64, 65, 127, 128, 129, 255, 256, 257])))       # and typical buffer sizes
     prec = draw(st.one_of(st.none(), st.none(), st.integers(0, 40)))
@@ -76,14 +201,21 @@ def _spec(draw):
         val = ["Int", "i:%d" % draw(st.integers(1, 255))]
     elif conv == "s":
         flags = draw(_flags("-"))
-        val = ["String", "s:" + draw(st.one_of(gen.cbytes(12), st.sampled_from([b"%d", b"100%", b"%s%s", b""]))).hex()]
+        how = draw(st.sampled_from(["str", "str", "str", "str", "long", "type"]))
+        if how == "type":       # any object with a C_Str instance: the text is its c_str
+            val = ["Type", draw(st.sampled_from(["Int", "String", "IndexOutOfBoundsError", "Blob", "C_Str"]))]
+        elif how == "long":     # lengths at and around buffer sizes
+            val = ["String", "s:" + (bytes([draw(st.integers(33, 126))]) * draw(st.sampled_from(BOUNDARY))).hex()]
+        else:
+            val = ["String", "s:" + draw(st.one_of(gen.cbytes(12), st.sampled_from([b"%d", b"100%", b"%s%s", b""]))).hex()]
     elif conv == "p":
         flags = draw(_flags("-"))
         prec = None
-        val = ["Obj", draw(st.sampled_from(["heapint", "heapstr"]))]
+        val = ["Obj", draw(st.sampled_from(["heapint", "heapstr", "null", "type", "stack"]))]
     else:  # $
         flags, width, prec = "", None, None
-        kind = draw(st.sampled_from(["Int", "Float", "String", "Array", "List", "Tuple", "Table", "Tree", "Type", "Ref", "Box", "Range", "Slice"]))
+        kind = draw(st.sampled_from(["Int", "Float", "String", "Array", "List", "Tuple", "Table", "Tree", "Type", "Ref", "Box", "Range", "Slice",
+                                     "Null", "EmptyBox", "Mix", "Mix", "Array", "List", "Table", "Tree", "SliceX", "SliceX", "SliceX", "SliceX", "SliceX"]))
         if kind == "Int":
             val = ["Int", "i:%d" % draw(gen.ints())]
         elif kind == "Float":
@@ -94,18 +226,23 @@ def _spec(draw):
             val = ["Type", draw(st.sampled_from(["Int", "Float", "String", "Array", "Table", "Type", "Ref", "IndexOutOfBoundsError", "Blob", "_"]))]
         elif kind in ("Ref", "Box"):
             val = [kind, "i:%d" % draw(st.integers(-99, 99))]
+        elif kind in ("Null", "EmptyBox"):
+            val = [kind]
         elif kind == "Range":
             val = ["Range", draw(st.integers(0, 5))]
         elif kind == "Slice":
             val = ["Slice", draw(st.lists(st.integers(-50, 50), max_size=5)), draw(st.integers(0, 5))]
-        elif kind in ("Array", "List", "Tuple"):
+        elif kind == "Mix":
+            val = draw(_mix_val())
+        elif kind == "SliceX":
+            val = draw(_slice_val())
+        elif kind in ("Array", "List"):
+            val = draw(_seq_val(kind))
+        elif kind == "Tuple":
             et = draw(st.sampled_from(["Int", "String"]))
-            items = draw(st.lists(st.integers(-50, 50).map(lambda v: "i:%d" % v) if et == "Int"
-                                  else gen.cbytes(4).map(lambda b: "s:" + b.hex()), max_size=4))
-            val = [kind, et, items]
+            val = [kind, et, draw(st.lists(_elem(et), max_size=4))]
         else:
-            ks = draw(st.lists(st.integers(-20, 20), max_size=3, unique=True))
-            val = [kind, "Int", [["i:%d" % k, "i:%d" % draw(st.integers(0, 9))] for k in ks]]
+            val = draw(_map_val(kind))
     if conv in "di" and "0" in flags and "-" in flags:
         flags = flags.replace("0", "")
     if conv in "uoxX" and "0" in flags and "-" in flags:
@@ -115,12 +252,21 @@ def _spec(draw):
     return ["spec", flags, width, prec, lm, conv, val]
 
 
-_lit = st.binary(min_size=1, max_size=10).map(lambda b: bytes(c for c in b if c not in (0, 0x25)) or b"x").map(lambda b: ["lit", b.hex()])
+def _mk_lit(t):
+    how, short, c, n = t
+    if how == 5:                         # a long literal run, lengths at and around buffer sizes
+        return ["lit", (bytes([c if c != 0x25 else 0x26]) * n).hex()]
+    return ["lit", (bytes(x for x in short if x not in (0, 0x25)) or b"x").hex()]
+
+
+# (one strategy, not a one_of: nested one_ofs are flattened and would change the literal : spec ratio)
+_lit = st.tuples(st.integers(0, 5), st.binary(min_size=1, max_size=10), st.integers(33, 126), st.sampled_from(BOUNDARY)).map(_mk_lit)
 
 
 @st.composite
 def _case(draw):
-    pieces = draw(st.lists(st.one_of(_lit, st.just(["pct"]), _spec(), _spec()), min_size=1, max_size=8))
+    npieces = draw(st.sampled_from([8, 8, 8, 8, 8, 8, 8, 24]))
+    pieces = draw(st.lists(st.one_of(_lit, st.just(["pct"]), _spec(), _spec()), min_size=1, max_size=npieces))
     nspec = sum(1 for p in pieces if p[0] == "spec")
     share = draw(st.sampled_from([False, False, True]))
     if share:
@@ -133,10 +279,25 @@ def _case(draw):
                     p[6] = list(first[p[6][0]])
                 else:
                     first.setdefault(p[6][0], p[6])
+    # the VM has 256 object slots: cut the format where the %$ values would need more
+    budget, keep = 200, []
+    for p in pieces:
+        if p[0] == "spec":
+            budget -= _slots(p[6]) + 1
+            if budget < 0:
+                break
+        keep.append(p)
+    pieces = keep or [["pct"]]
+    nspec = sum(1 for p in pieces if p[0] == "spec")
     prefix = draw(st.one_of(st.just(b""), gen.cbytes(12)))
+    sink = draw(st.sampled_from(["string", "string", "string", "string", "file", "file", "stdout"]))
     return {"pieces": pieces, "prefix": prefix.hex(), "pos": draw(st.sampled_from([0, 0, 1000, 500, 300])),
-            "sink": draw(st.sampled_from(["string", "string", "file"])),
-            "drop": draw(st.sampled_from([0, 0, 0, 0, 1])) if nspec else 0,
+            "sink": sink,
+            # arguments missing at the end: one, two, all (99)
+            "drop": draw(st.sampled_from([0, 0, 0, 0, 0, 0, 0, 1, 1, 2, 99])) if nspec else 0,
+            # surplus arguments after the ones the format consumes
+            "extra": draw(st.sampled_from([0, 0, 0, 1, 2])),
+            "entry": draw(st.sampled_from(["print", "println", "show"])),
             "cfg": draw(st.sampled_from(["asan", "plain"])), "share": share}
 
 
@@ -166,14 +327,204 @@ def _re_escape(b):
     return re.escape(b)
 
 
+_SAMPLE = {"Int": "i:99", "String": "s:7a7a", "Float": "f:4058c00000000000"}
+
+
+class _Builder:
+    """turns a %$ value description into VM ops (P), the argument text and the expected text parts
+    (bytes = verbatim | ("ref", key) = libc reference text | ("regex", pattern) | ("map", key, open, close) = pairs in
+    the iteration order observed through the iteration API)"""
+
+    def __init__(self, P, G, ev):
+        self.P, self.G, self.ev = P, G, ev
+        self.slot = 10
+        self.nkey = 0
+
+    def new_slot(self):
+        self.slot += 1
+        if self.slot >= 250:
+            raise HarnessBug("out of VM slots")
+        return self.slot
+
+    def key(self, tag):
+        self.nkey += 1
+        return "%s%d" % (tag, self.nkey)
+
+    def float_ref(self, lit):
+        key = self.key("f")
+        G = self.G
+        self.P.add("cprintf %s - f %s" % (b"%f".hex(), lit),
+                   lambda o, key=key: G.__setitem__(key, bytes.fromhex(o[3:])) if o.startswith("ok") else "cprintf failed " + o)
+        return ("ref", key)
+
+    def scalar_parts(self, lit):
+        if lit[0] == "i":
+            return [b"%d" % int(lit[2:])]
+        if lit[0] == "f":
+            return [self.float_ref(lit)]
+        return [show_string(bytes.fromhex(lit[2:]))]
+
+    def build(self, val, depth=0):
+        """-> (argument text, parts)"""
+        P, G = self.P, self.G
+        k = val[0]
+        if depth == 0:
+            self.ev.add("val=" + k)
+        else:
+            self.ev.add("nested=" + k)
+        if k in ("Int", "Float", "String"):
+            if depth == 0:
+                return val[1], self.scalar_parts(val[1])
+            s = self.new_slot()
+            P.add("new %%%d heap t:%s %s" % (s, k, val[1]))
+            return "%%%d" % s, self.scalar_parts(val[1])
+        if k == "Type":
+            return ("t:" + val[1] if val[1] != "_" else "_"), [val[1].encode()]
+        if k == "Null":
+            return "null", [b"<NULL>"]
+        if k in ("Ref", "Box", "EmptyBox"):
+            inner, s = self.new_slot(), self.new_slot()
+            lit = val[1] if k != "EmptyBox" else "i:1"
+            P.add("new %%%d heap t:Int %s" % (inner, lit))
+            P.add("new %%%d heap t:%s %%%d" % (s, "Ref" if k == "Ref" else "Box", inner))
+            if k == "Ref":            # a type without a Show instance: the generic text
+                return "%%%d" % s, [("regex", b"<'Ref' At " + _ADDR + b">")]
+            if k == "Box":
+                P.add("zero %%%d" % inner)       # the Box owns it now
+                return "%%%d" % s, [("regex", b"<'Box' at " + _ADDR + b" \\(" + _re_escape(b"%d" % int(lit[2:])) + b"\\)>")]
+            P.add("ref %%%d null" % s)           # the release idiom: the Box is empty, the Int is ours again
+            P.add("del %%%d" % inner)
+            return "%%%d" % s, [("regex", b"<'Box' at " + _ADDR + b" \\(<NULL>\\)>")]
+        if k == "Range":
+            s = self.new_slot()
+            P.add("new %%%d heap t:Range i:%d" % (s, val[1]))
+            return "%%%d" % s, [("regex", b"<'Range' At " + _ADDR + b" \\[" + b", ".join(b"%d" % i for i in range(val[1])) + b"\\]>")]
+        if k == "Slice":
+            a, s = self.new_slot(), self.new_slot()
+            P.add("new %%%d heap t:Array t:Int %s" % (a, " ".join("i:%d" % x for x in val[1])))
+            P.add("new %%%d heap t:Slice %%%d i:%d _" % (s, a, min(val[2], len(val[1]))))
+            return "%%%d" % s, [("regex", b"<'Slice' At " + _ADDR + b" \\[" + b", ".join(_re_escape(b"%d" % i) for i in val[1][min(val[2], len(val[1])):]) + b"\\]>")]
+        if k in ("Array", "List"):
+            et, items = val[1], val[2]
+            hist = val[3] if len(val) > 3 else {}
+            s = self.new_slot()
+            late = min(hist.get("late", 0), len(items))
+            P.add("new %%%d heap t:%s t:%s %s" % (s, k, et, " ".join(items[:len(items) - late])))
+            if hist.get("reserve") and k == "Array":
+                P.add("resize %%%d %d" % (s, len(items) - late + hist["reserve"]))
+            for it in items[len(items) - late:]:
+                P.add("push %%%d %s" % (s, it))
+            if hist.get("push") or hist.get("front") or late or (hist.get("reserve") and k == "Array"):
+                self.ev.add("container-history")
+            for _ in range(hist.get("push", 0)):
+                P.add("push %%%d %s" % (s, _SAMPLE[et]))
+            for _ in range(hist.get("push", 0)):
+                P.add("pop %%%d" % s)
+            if hist.get("front"):
+                P.add("push_at %%%d %s i:0" % (s, _SAMPLE[et]))
+                P.add("pop_at %%%d i:0" % s)
+            if len(items) > 4:
+                self.ev.add("container>4")
+            parts = [("regex", b"<'" + k.encode() + b"' At " + _ADDR + b" \\[")]
+            for i, it in enumerate(items):
+                if i:
+                    parts.append(b", ")
+                parts += self.scalar_parts(it)
+            return "%%%d" % s, parts + [b"]>"]
+        if k == "Tuple":
+            et, items = val[1], val[2]
+            refs, parts = [], [b"tuple("]
+            for i, it in enumerate(items):
+                r = self.new_slot()
+                P.add("new %%%d heap t:%s %s" % (r, et, it))
+                refs.append("%%%d" % r)
+                if i:
+                    parts.append(b", ")
+                parts += self.scalar_parts(it)
+            s = self.new_slot()
+            P.add("new %%%d heap t:Tuple %s" % (s, " ".join(refs)))
+            return "%%%d" % s, parts + [b")"]
+        if k == "Mix":
+            refs, parts = [], [b"tuple("]
+            for i, it in enumerate(val[1]):
+                a, ps = self.build(it, depth + 1)
+                refs.append(a)
+                if i:
+                    parts.append(b", ")
+                parts += ps
+            s = self.new_slot()
+            P.add("new %%%d heap t:Tuple %s" % (s, " ".join(refs)))
+            return "%%%d" % s, parts + [b")"]
+        if k == "SliceX":
+            base, _ = self.build(val[1], depth + 1)
+            s = self.new_slot()
+            P.add("new %%%d heap t:Slice %s %s" % (s, base, " ".join("_" if a == "_" else "i:%d" % a for a in val[2])))
+            self.ev.add("slice-over=" + val[1][0] + ("<String>" if val[1][0] == "Tree" and val[1][1] == "SI" else ""))
+            if len(val[2]) == 3 and val[2][2] != "_" and val[2][2] < 0:
+                self.ev.add("slice-backwards")
+            key = self.key("walk")
+
+            def grabw(o, key=key):
+                if not (o.startswith("ok [") and o.endswith("]")) or "OVERRUN" in o:
+                    return "iteration failed " + o[:200]
+                G[key] = o[4:-1]
+                return None
+            P.add("fwd %%%d" % s, grabw)           # what the Slice yields, in iteration order, through the iteration API
+            return "%%%d" % s, [("walk", "Slice", key)]
+        if k in ("Table", "Tree"):
+            kv, pairs = val[1], val[2]
+            hist = val[3] if len(val) > 3 else {}
+            kt = "String" if kv in ("SI", "SS") else "Int"
+            vt = "String" if kv in ("IS", "SS") else "Int"
+            s = self.new_slot()
+            late = min(hist.get("late", 0), len(pairs))
+            P.add("new %%%d heap t:%s t:%s t:%s %s" % (s, k, kt, vt, " ".join(a + " " + b for a, b in pairs[:len(pairs) - late])))
+            if hist.get("reserve") and k == "Table":
+                P.add("resize %%%d %d" % (s, len(pairs) - late + hist["reserve"]))
+            for a, b in pairs[len(pairs) - late:]:
+                P.add("set %%%d %s %s" % (s, a, b))
+            if hist.get("extra") or late or (hist.get("reserve") and k == "Table"):
+                self.ev.add("container-history")
+            for j in range(hist.get("extra", 0)):            # keys outside the generated universe, set and removed again
+                xk = "i:%d" % (100 + 7 * j) if kt == "Int" else "s:" + (b"\x7e%d" % j).hex()
+                P.add("set %%%d %s %s" % (s, xk, _SAMPLE[vt]))
+            for j in range(hist.get("extra", 0)):
+                xk = "i:%d" % (100 + 7 * j) if kt == "Int" else "s:" + (b"\x7e%d" % j).hex()
+                P.add("rem %%%d %s" % (s, xk))
+            if len(pairs) > 4:
+                self.ev.add("container>4")
+            if kv != "Int":
+                self.ev.add("map-types=" + kv)
+            key = self.key("order")
+
+            def grab(o, key=key):
+                if not o.startswith("ok {"):
+                    return "iteration failed " + o
+                G[key] = o[4:-1]
+                return None
+            P.add("fwdkv %%%d" % s, grab)
+            return "%%%d" % s, [("map", k, key)]
+        raise HarnessBug("value kind " + k)
+
+
+def _tok_show(tok):
+    """show text of a value as the VM prints it (i<dec> | s<hex>)"""
+    if tok[0] == "i":
+        return b"%d" % int(tok[1:])
+    if tok[0] == "s":
+        return show_string(bytes.fromhex(tok[1:]))
+    raise HarnessBug("token " + tok)
+
+
 def run_case(ctx, case):
     P = Prog()
     G = {}
     pieces = case["pieces"]
     fmt = b""
     args = []
-    expect_parts = []       # bytes | ("ref", key) | ("regex", bytes pattern)
-    slot = [10]
+    expect_parts = []       # bytes | ("ref", key) | ("regex", bytes pattern) | ("map", kind, key)
+    evs = set()
+    B = _Builder(P, G, evs)
     shared = {}
     nflag = 0
     nspec = 0
@@ -182,6 +533,8 @@ def run_case(ctx, case):
             b = bytes.fromhex(p[1])
             fmt += b
             expect_parts.append(b)
+            if len(b) >= 100:
+                evs.add("long-literal")
         elif p[0] == "pct":
             fmt += b"%%"
             expect_parts.append(b"%")
@@ -193,115 +546,75 @@ def run_case(ctx, case):
             if flags or width is not None or prec is not None:
                 nflag += 1
             if conv == "p":
-                slot[0] += 1
-                s = slot[0]
+                s = B.new_slot()
+                a = "%%%d" % s
                 if val[1] == "heapint":
                     P.add("new %%%d heap t:Int i:5" % s)
-                else:
+                elif val[1] == "heapstr":
                     P.add("new %%%d heap t:String s:6162" % s)
-                a = "%%%d" % s
-            elif conv == "$" and val[0] in ("Array", "List", "Tuple", "Table", "Tree"):
-                slot[0] += 1
-                s = slot[0]
-                if val[0] in ("Array", "List"):
-                    P.add("new %%%d heap t:%s t:%s %s" % (s, val[0], val[1], " ".join(val[2])))
-                elif val[0] == "Tuple":
-                    refs = []
-                    for it in val[2]:
-                        slot[0] += 1
-                        P.add("new %%%d heap t:%s %s" % (slot[0], val[1], it))
-                        refs.append("%%%d" % slot[0])
-                    P.add("new %%%d heap t:Tuple %s" % (s, " ".join(refs)))
+                elif val[1] == "stack":
+                    P.add("tmp %%%d i:5" % s)
+                elif val[1] == "type":
+                    a = "t:Float"
                 else:
-                    P.add("new %%%d heap t:%s t:Int t:Int %s" % (s, val[0], " ".join(k + " " + v for k, v in val[2])))
-                    key = "order%d" % idx
-
-                    def grab(o, key=key):
-                        if not o.startswith("ok {"):
-                            return "iteration failed " + o
-                        G[key] = o[4:-1]
-                        return None
-                    P.add("fwdkv %%%d" % s, grab)
-                a = "%%%d" % s
-            elif conv == "$" and val[0] == "Type":
-                a = "t:" + val[1] if val[1] != "_" else "_"
-            elif conv == "$" and val[0] in ("Ref", "Box"):
-                slot[0] += 2
-                P.add("new %%%d heap t:Int %s" % (slot[0] - 1, val[1]))
-                P.add("new %%%d heap t:%s %%%d" % (slot[0], val[0], slot[0] - 1))
-                if val[0] == "Box":
-                    P.add("zero %%%d" % (slot[0] - 1))       # the Box owns it now
-                a = "%%%d" % slot[0]
-            elif conv == "$" and val[0] == "Slice":
-                slot[0] += 2
-                P.add("new %%%d heap t:Array t:Int %s" % (slot[0] - 1, " ".join("i:%d" % x for x in val[1])))
-                P.add("new %%%d heap t:Slice %%%d i:%d _" % (slot[0], slot[0] - 1, min(val[2], len(val[1]))))
-                a = "%%%d" % slot[0]
-            elif conv == "$" and val[0] == "Range":
-                slot[0] += 1
-                P.add("new %%%d heap t:Range i:%d" % (slot[0], val[1]))
-                a = "%%%d" % slot[0]
+                    a = "null"
+                evs.add("p=" + val[1])
+            elif conv == "$":
+                a, parts = B.build(val)
+                expect_parts += parts
+            elif conv == "s" and val[0] == "Type":
+                a = "t:" + val[1]
+                evs.add("s-arg=Type")
             elif case.get("share") and val[0] in ("Int", "Float", "String") and conv != "c":
                 keyv = (val[0], val[1])
                 if keyv not in shared:
-                    slot[0] += 1
-                    P.add("new %%%d heap t:%s %s" % (slot[0], val[0], val[1]))
-                    shared[keyv] = "%%%d" % slot[0]
+                    s = B.new_slot()
+                    P.add("new %%%d heap t:%s %s" % (s, val[0], val[1]))
+                    shared[keyv] = "%%%d" % s
                 a = shared[keyv]
             else:
                 a = val[1]
+            if conv == "s" and val[0] == "String" and len(val[1]) >= 202:
+                evs.add("long-string-arg")
             args.append(a)
-            if conv == "$":
-                if val[0] == "Int":
-                    expect_parts.append(b"%d" % int(val[1][2:]))
-                elif val[0] == "Float":
-                    key = "c%d" % idx
-                    P.add("cprintf %s - f %s" % (b"%f".hex(), val[1]), lambda o, key=key: G.__setitem__(key, bytes.fromhex(o[3:])) if o.startswith("ok") else "cprintf failed " + o)
-                    expect_parts.append(("ref", key))
-                elif val[0] == "String":
-                    expect_parts.append(show_string(bytes.fromhex(val[1][2:])))
-                elif val[0] == "Type":
-                    expect_parts.append(val[1].encode())
-                elif val[0] == "Ref":            # a type without a Show instance: the generic text
-                    expect_parts.append(("regex", b"<'Ref' At [0-9a-zA-Z()x]+>"))
-                elif val[0] == "Box":
-                    expect_parts.append(("regex", b"<'Box' at [0-9a-zA-Z()x]+ \\(" + _re_escape(b"%d" % int(val[1][2:])) + b"\\)>"))
-                elif val[0] == "Slice":
-                    expect_parts.append(("regex", b"<'Slice' At [0-9a-zA-Z()x]+ \\[" + b", ".join(_re_escape(b"%d" % i) for i in val[1][min(val[2], len(val[1])):]) + b"\\]>"))
-                elif val[0] == "Range":
-                    expect_parts.append(("regex", b"<'Range' At [0-9a-zA-Z()x]+ \\[" + b", ".join(b"%d" % i for i in range(val[1])) + b"\\]>"))
-                elif val[0] in ("Array", "List", "Tuple"):
-                    def el(x):
-                        return b"%d" % int(x[2:]) if x[0] == "i" else show_string(bytes.fromhex(x[2:]))
-                    body = b", ".join(el(x) for x in val[2])
-                    if val[0] == "Tuple":
-                        expect_parts.append(b"tuple(" + body + b")")
-                    else:
-                        expect_parts.append(("regex", b"<'" + val[0].encode() + b"' At [0-9a-zA-Z()x]+ \\[" + _re_escape(body) + b"\\]>"))
-                else:
-                    expect_parts.append(("map", val[0], "order%d" % idx))
-            else:
+            if conv != "$":
                 key = "c%d" % idx
                 P.add("cprintf %s %s %s %s" % (st_.hex(), lm or "-", conv, a),
                       lambda o, key=key: G.__setitem__(key, bytes.fromhex(o[3:])) if o.startswith("ok") else "cprintf failed " + o)
                 expect_parts.append(("ref", key))
     prefix = bytes.fromhex(case["prefix"])
+    sink = case["sink"]
     pos = case["pos"] * (len(prefix) + 1) // 1001
-    drop = case["drop"]
-    use_args = args[:len(args) - drop] if drop else args
+    if sink == "stdout":
+        pos, prefix = 0, b""
+    drop = min(case["drop"], len(args))
+    use_args = args[:len(args) - drop] if drop else list(args)
+    extra = case.get("extra", 0) if not drop else 0
+    use_args += ["i:7", "s:737572706c7573"][:extra]
     res = {}
+    entry = case.get("entry", "print")
+    if sink == "stdout" and entry == "show" and not (len(pieces) == 1 and pieces[0][0] == "spec" and pieces[0][5] == "$" and not drop):
+        entry = "print"
 
     def grab_res(o):
         res["o"] = o
         return None
-    if case["sink"] == "string":
+    if sink == "string":
         P.add("new %%0 heap t:String s:%s" % prefix.hex())
         P.add("print %%0 %d %s %s" % (pos, fmt.hex(), " ".join(use_args)), grab_res)
         P.add("del %0", lambda o: None)
-    else:
+    elif sink == "file":
         P.add("fprint %d %s %s" % (pos, fmt.hex(), " ".join(use_args)), grab_res)
+    elif entry == "show":
+        P.add("oprint s %s" % args[0], grab_res)
+    else:
+        P.add("oprint %s %s %s" % ("p" if entry == "print" else "n", fmt.hex(), " ".join(use_args)), grab_res)
     fail, obs = P.run(ctx.executor("ex_vm_plain" if case.get("cfg") == "plain" else "ex_vm"))
-    ev = ["sink=" + case["sink"], "nspec=%d" % min(nspec, 4), "cfg=" + case.get("cfg", "asan")]
+    ev = ["sink=" + sink, "nspec=%d" % min(nspec, 4), "cfg=" + case.get("cfg", "asan")] + sorted(evs)
+    if sink == "stdout":
+        ev.append("entry=" + entry)
+    if len(pieces) > 8:
+        ev.append("pieces>8")
     for p in pieces:
         if p[0] == "spec":
             ev.append("conv=" + p[5])
@@ -313,9 +626,12 @@ def run_case(ctx, case):
     o = res.get("o", "")
     if drop:
         ev.append("too-few-args")
-        if not o.startswith("exc FormatError"):
+        ev.append("dropped=%s" % ("all" if drop == len(args) else drop))
+        if not (o.startswith("exc FormatError") or (sink == "stdout" and o.startswith("ok raised FormatError "))):
             return Result("too few arguments but print_to gave '%s' instead of FormatError" % o[:200], nt, ev, None)
         return Result(None, nt, ev, None)
+    if extra:
+        ev.append("surplus-args")
     if not o.startswith("ok ret="):
         return Result("print_to failed: %s (format %r)" % (o[:200], fmt), nt, ev, None)
     m = re.match(r"ok ret=(-?\d+) s=([0-9a-f]*)", o)
@@ -329,15 +645,21 @@ def run_case(ctx, case):
             pat += _re_escape(G[e[1]])
         elif e[0] == "regex":
             pat += e[1]
+        elif e[0] == "walk":
+            body = G.get(e[2], "")
+            items = [_tok_show(t) for t in body.split(",")] if body else []
+            pat += b"<'" + e[1].encode() + b"' At " + _ADDR + b" \\[" + _re_escape(b", ".join(items)) + b"\\]>"
         else:
             body = G.get(e[2], "")
             items = []
             if body:
                 for kv in body.split(","):
                     k, v = kv.split(":")
-                    items.append(b"%d:%d" % (int(k[1:]), int(v[1:])))
-            pat += b"<'" + e[1].encode() + b"' At [0-9a-zA-Z()x]+ \\{" + _re_escape(b", ".join(items)) + b"\\}>"
-    if case["sink"] == "string":
+                    items.append(_tok_show(k) + b":" + _tok_show(v))
+            pat += b"<'" + e[1].encode() + b"' At " + _ADDR + b" \\{" + _re_escape(b", ".join(items)) + b"\\}>"
+    if sink == "stdout" and entry == "println":
+        pat += b"\\n"
+    if sink == "string":
         head = prefix[:pos]
         full = _re_escape(head) + pat
         start = pos
@@ -346,8 +668,8 @@ def run_case(ctx, case):
         start = pos
     mm = re.fullmatch(full, got, re.DOTALL)
     if not mm:
-        return Result("output %r does not match expected %r (format %r, args %s)" % (got[:300], full[:300], fmt, use_args), nt, ev, None)
-    written = len(got) - (len(prefix[:pos]) if case["sink"] == "string" else 0)
+        return Result("output %r does not match expected %r (format %r, args %s)" % (got[:300], full[:300], fmt[:200], use_args[:12]), nt, ev, None)
+    written = len(got) - (len(prefix[:pos]) if sink == "string" else 0)
     if ret != start + written:
         return Result("returned position %d, expected start %d + %d characters written" % (ret, start, written), nt, ev, None)
     return Result(None, nt, ev, None)
